@@ -402,6 +402,7 @@ func TestRoundTrip(t *testing.T) {
 		nk := 0
 		lzUsed := false
 		staleUsed := false
+		boundaryUsed := false
 		usedLZ := map[string]bool{}
 		newKey := func() *keys.Key {
 			nk++
@@ -447,7 +448,7 @@ func TestRoundTrip(t *testing.T) {
 		st.Request = req
 		c.Steps = append(c.Steps, st)
 		n := rapid.IntRange(0, 4).Draw(t, "furtherOps")
-		tm := uint64(100)
+		tm := uint64(10000) // beyond every maximum operation time delta, so that anchorFrom = time - delta is a legal (positive) value
 		curUpdCommit := st.NextUpdate // the update commitment in force
 		var pastCommits []string      // update commitments consumed since the create / the last recover
 		for i := 0; i < n; i++ {
@@ -456,7 +457,12 @@ func TestRoundTrip(t *testing.T) {
 			s := Step{Type: kind, Time: tm}
 			switch rapid.IntRange(0, 2).Draw(t, "window") {
 			case 1:
-				s.From = int64(tm) - int64(rapid.IntRange(0, int(c.TimeDelta)).Draw(t, "fromBack"))
+				back := rapid.IntRange(0, int(c.TimeDelta)).Draw(t, "fromBack")
+				if rapid.IntRange(0, 3).Draw(t, "anchoredInLastSecondOfImpliedWindow") == 0 {
+					back = int(c.TimeDelta) // anchorFrom + maximum operation time delta == anchoring time: the inclusive end
+					boundaryUsed = true
+				}
+				s.From = int64(tm) - int64(back)
 				if s.From <= 0 {
 					s.From = 1
 				}
@@ -550,7 +556,7 @@ func TestRoundTrip(t *testing.T) {
 		for _, s := range c.Steps {
 			types = append(types, "op:"+s.Type, "sign:"+s.KeyType)
 		}
-		ev.Record(chk, nontrivial, ev.Hash(c), append(types, fmt.Sprintf("hash:%d", code), fmt.Sprintf("migrates-hash-algorithm:%v", migrate), fmt.Sprintf("leading-zero-coordinate-key:%v", lzUsed), fmt.Sprintf("stale-update-in-front:%v", staleUsed))...)
+		ev.Record(chk, nontrivial, ev.Hash(c), append(types, fmt.Sprintf("hash:%d", code), fmt.Sprintf("migrates-hash-algorithm:%v", migrate), fmt.Sprintf("leading-zero-coordinate-key:%v", lzUsed), fmt.Sprintf("stale-update-in-front:%v", staleUsed), fmt.Sprintf("anchored-at-end-of-implied-window:%v", boundaryUsed))...)
 		ev.SampleFn(chk, func() interface{} {
 			var out []string
 			for _, s := range c.Steps {
